@@ -70,6 +70,7 @@ def OpOk : Op → Prop
   | .eaInit _ r _ | .eaResize _ r _ | .eaAppend _ r _ | .eaShrink _ r | .eaGetsize r | .eaDup r | .eaExport r => 0 < r
   | .eqInit r => 0 < r ∧ r + cap ≤ SIZE_MAX
   | .smAdd p => 0 < p ∧ p < 2^64
+  | .mpInit k => poolSizes.contains k = true
   | _ => True
 
 instance : DecidablePred OpOk := fun op => by cases op <;> simp only [OpOk] <;> infer_instance
@@ -1909,7 +1910,7 @@ theorem poolExit_spec {s : DsStep.S} {base : Int} (hR : MPool.R s.mp s.m s.inUse
     rw [(MPool.foldl_free_live _ _).1, (MPool.atexit_spec s.mp s.m s.inUse base hR).2.2]; omega
   refine ⟨?_, hlive, ?_, rfl, rfl, rfl⟩
   · simp only [poolExit]; exact (mp_atexit_ext _ _).trans (foldl_free_ext _ _)
-  · have := MPool.init_R 4 (poolExit s).m
+  · have := MPool.init_R s.mpSize (poolExit s).m
     rw [hlive] at this
     exact this
 
@@ -1917,6 +1918,19 @@ theorem mp_exit_accept {n : Nat} {s : DsStep.S} {ms : Spec.DSMon.S} (h : Rel n s
   obtain ⟨hext, _, hR, h1, h2, h3⟩ := poolExit_spec h.mp
   unfold StepGoal
   simp only [stepOp, Out.ans]
+  simp only [monStep]
+  refine ⟨rfl, ⟨h.capped.ext hext, by rw [h1]; exact h.ea, by rw [h2]; exact h.eq,
+    by rw [h3]; exact h.sm.mono (Nat.le_succ _), by rw [h1, h2, h3]; exact hR, rfl⟩⟩
+
+/-- `mp_init size` (one of the harness' pool sizes): the pool in use ends like `mp_exit`, a fresh pool of cache size
+`size` is taken -/
+theorem mp_init_accept {n : Nat} {s : DsStep.S} {ms : Spec.DSMon.S} (h : Rel n s ms) (size : Nat)
+    (hok : poolSizes.contains size = true) : StepGoal n s ms (.mpInit size) := by
+  obtain ⟨hext, hlive, _, h1, h2, h3⟩ := poolExit_spec h.mp
+  have hR := MPool.init_R size (poolExit s).m
+  rw [hlive] at hR
+  unfold StepGoal
+  simp only [stepOp, hok, Bool.not_true, Bool.false_eq_true, if_false, Out.ans]
   simp only [monStep]
   refine ⟨rfl, ⟨h.capped.ext hext, by rw [h1]; exact h.ea, by rw [h2]; exact h.eq,
     by rw [h3]; exact h.sm.mono (Nat.le_succ _), by rw [h1, h2, h3]; exact hR, rfl⟩⟩
@@ -1989,6 +2003,7 @@ theorem mon_step {n : Nat} {s : DsStep.S} {ms : Spec.DSMon.S} (h : Rel n s ms) (
   case mpFree x => exact mp_free_accept h x
   case mpFreenth j => exact mp_freenth_accept h j
   case mpExit => exact mp_exit_accept h
+  case mpInit size => exact mp_init_accept h size hok
   case eqInit r => exact eq_family_accept h _ hok trivial
   case eqAdd seed => exact eq_family_accept h _ hok trivial
   case eqDel => exact eq_family_accept h _ hok trivial
